@@ -570,6 +570,19 @@ def gen_streamed_readback_programs():
             ops.append(f"rcheck {r2}"); exp.append((len(ops) - 1, None))
             prev = d[:40]
         progs.append(Program(f"streamed-readback-{fl}", ops, tags={"sread": exp, "variety": ("sread", fl)}))
+    # one `read_exact` of a whole 3 MiB entry: on the async side the runtime hands the file over in pieces (tokio: 2 MiB
+    # per poll), so the reader is polled again with a buffer that is already partly filled
+    big = bytes((j * 7 + j // 251) % 256 for j in range(3 << 20))
+    for fl in "sa":
+        ops = [f"write_hash {fl} c0 sha256 {hx(big)}", w_oneshot(fl, "sha256", b"three-mib", big)]
+        exp = []
+        ops += [f"ropen {fl} c0 R1 {hx(b'three-mib')}", f"rreadexact R1 {len(big)}"]; exp.append((len(ops) - 1, big))
+        ops.append("rcheck R1"); exp.append((len(ops) - 1, None))
+        ops += [f"ropen_hash {fl} c0 R2 {sri_tok('sha256', big)}", "rread R2 5"]; exp.append((len(ops) - 1, big[:5]))
+        ops.append(f"rreadexact R2 {len(big) - 5}"); exp.append((len(ops) - 1, big[5:]))
+        ops.append("rcheck R2"); exp.append((len(ops) - 1, None))
+        progs.append(Program(f"read-exact-3mib-{fl}", ops, model=False,
+                             tags={"sread": exp, "both_binaries": True, "variety": ("read-exact", fl)}))
     for fl in "sa":
         for n_decl in (1, 4096, 1 << 20):
             for keyed in (True, False):
